@@ -146,4 +146,6 @@ def search(ctx):
 
 
 def replay(ctx, data):
+    if "input" not in data:
+        return appcheck.replay_nofail(ctx, data, run)
     return appcheck.replay_scenario(ctx, "C13", data, exact_of=exact_of, extra_check=extra)
